@@ -22,7 +22,22 @@ CAT = "MiniMcmcVerif.Categorical."
 
 MH = "MiniMcmcVerif.MH."
 
+INI = "MiniMcmcVerif.Init."
+
 PROPS = {
+    "C18": {
+        "obligations": [INI + n for n in ["init_length", "init_row", "init_row_length", "init_prefix", "init_det_eq_42", "init_with_seed_prefix"]],
+        "level_text": "Theorems (induction on n, any element type, any stream): the layout model returns exactly n vectors of length d, row i holds variates i*d..i*d+d-1 (row-major consumption), "
+                      "the first n rows of a request for n+k rows equal the request for n rows, init_det = init_with_seed 42; seeded variants are functions of their arguments by construction. "
+                      "Tied to core.rs by taking the variate stream from the largest real request and requiring the model to reproduce every smaller real request bit for bit; purity, seed-sensitivity, "
+                      "finiteness, freshness of the OS-seeded init are predicates on the implementation.",
+        "level_note": "Trusted: 'independent standard-normal' is a property of rand_distr::StandardNormal over SmallRng — supported by bit-equality with the reference stream when the code draws that way, "
+                      "otherwise by a deterministic (fixed-seed) moment/KS/autocorrelation test; not a theorem.",
+        "rule": "(d, seed, n_big<=256) with d in 0..256 (boundary 0/1/2 favoured), seeds incl. 0, 1, 42, u64::MAX; four requests n<=n_big per stream incl. n=0/1/2; init_det vs seed 42; f32 and f64; "
+                "distinct by (type, n, d, seed)",
+        "trusted": ["rand_distr::StandardNormal yields independent standard-normal variates"],
+        "assumptions": [],
+    },
     "C01": {
         "obligations": [MH + n for n in ["mh_step_rule", "mh_step_accept", "mh_step_reject", "mh_step_mem", "accepts_iff",
                                          "mh_reject_bad", "mh_reject_nan", "mh_reject_nan_lnu", "mh_never_bad",
